@@ -227,8 +227,15 @@ output_instance(std::ostream &out, int indent_level, CPPScope *scope,
 
   std::string bracketsstr = brackets.str();
 
-  _element_type->output_instance(out, indent_level, scope, complete,
-                                 prename, name + bracketsstr);
+  if (prename.empty()) {
+    _element_type->output_instance(out, indent_level, scope, complete,
+                                   prename, name + bracketsstr);
+  } else {
+    // A pointer or reference to an array needs parentheses, since the
+    // brackets bind more tightly: int (*name)[5].
+    _element_type->output_instance(out, indent_level, scope, complete,
+                                   "", "(" + prename + name + ")" + bracketsstr);
+  }
 }
 
 /**
